@@ -62,7 +62,7 @@ def run(prop, tier):
             hist = []
             for did, kind, name, obs in (("b:good", "baseline", "good", "orig"), ("b:gaps", "baseline", "gaps", "orig"),
                                          ("r:wmonth:orig", "reporting", "wmonth", "orig"), ("r:wweek:absent", "reporting", "wweek", "absent")):
-                for entry in (["frame"] if fam == "caltrack" else ["frame", "dtcol"] + (["series", "series_utc"] if fam in ("daily", "billing") else [])):
+                for entry in (["frame"] if fam == "caltrack" else ["frame", "dtcol", "naive", "notemp"] + (["series", "series_utc"] if fam in ("daily", "billing") else [])):
                     hist.append({"op": "make", "d": "%s@%s" % (did, entry), "fam": fam, "kind": kind, "name": name, "obs": obs, "entry": entry})
             hist.append({"op": "readdf", "d": "b:good@frame"})
             extra_jobs.append({"hist": hist, "abstract": [{"op": "dataonly", "fam": fam}], "scenario": "dataonly", "fam": fam, "prof": "-"})
